@@ -608,6 +608,10 @@ func (m *Mint) RequestMeltQuote(meltQuoteRequest nut05.PostMeltQuoteBolt11Reques
 		return storage.MeltQuote{}, cashu.BuildCashuError("invoice has no amount", cashu.MeltQuoteErrCode)
 	}
 	invoiceSatAmount := uint64(bolt11.MSatoshi) / 1000
+	// round up so that the amount burned covers invoices with sub-sat precision
+	if uint64(bolt11.MSatoshi)%1000 != 0 {
+		invoiceSatAmount++
+	}
 	quoteAmount := invoiceSatAmount
 
 	// check if a mint quote exists with the same invoice.
@@ -639,6 +643,9 @@ func (m *Mint) RequestMeltQuote(meltQuoteRequest nut05.PostMeltQuoteBolt11Reques
 				isMpp = true
 				amountMsat = mpp.AmountMsat
 				quoteAmount = amountMsat / 1000
+				if amountMsat%1000 != 0 {
+					quoteAmount++
+				}
 				m.logInfof("got melt quote request to pay partial amount '%v' of invoice with amount '%v'",
 					quoteAmount, invoiceSatAmount)
 			} else {
